@@ -4,12 +4,18 @@ from common import *
 import evalkit
 
 _bin = {}
-def build_harness(tag='e2', defines=(), eval_defines=(), extra_c=()):
+CINTER_ROOTS = ['ndsplineeval', 'ndsplineeval_gradient', 'ndsplineeval_deriv', 'tablesearchcenters']
+def build_harness(tag='e2', defines=(), eval_defines=(), extra_c=(), cinter=False):
     """gcc-compiled generated C (VR_SYM) + rt_sym + e2_eval harness -> executable"""
-    key = (tag,) + tuple(defines) + tuple(eval_defines)
-    if key in _bin: return _bin[key]
+    key = (tag, cinter) + tuple(defines) + tuple(eval_defines)
+    return once(key, lambda: _build_harness(tag, defines, eval_defines, extra_c, cinter))
+
+def _build_harness(tag, defines, eval_defines, extra_c, cinter):
     d = scratch(); evalkit.layout_header()
-    c, m = evalkit.eval_c(['/^w_/'], tag + '_sym', defines=eval_defines, extra=())
+    roots = ['/^w_/'] + (CINTER_ROOTS if cinter else [])
+    alias = ['%s=c_%s' % (r, r) for r in CINTER_ROOTS] if cinter else []
+    if cinter: defines = list(defines) + ['WITH_CINTER']
+    c, m = evalkit.eval_c(roots, tag + '_sym', defines=eval_defines, extra=(), alias=alias, cinter=cinter)
     objs = []
     def cc(src):
         o = os.path.join(d, tag + '.' + os.path.basename(src) + '.o')
@@ -19,8 +25,7 @@ def build_harness(tag='e2', defines=(), eval_defines=(), extra_c=()):
     run(['g++', '-std=c++17', '-O2', '-I' + VERIF + '/rt', '-c', VERIF + '/rt/rt_sym.cpp', '-o', o])
     out = os.path.join(d, tag + '_e2_eval')
     run(['g++', '-std=c++17', '-O1', '-DVR_SYM'] + ['-D' + x for x in defines] + ['-I' + VERIF + '/rt', '-I' + VERIF + '/harness', '-I' + d, VERIF + '/harness/e2_eval.cpp', '-o', out] + objs + [o, '-lgmpxx', '-lgmp', '-lm'])
-    _bin[key] = (out, m)
-    return _bin[key]
+    return (out, m)
 
 def run_cases(binary, casefile_text, name):
     """run the harness on one case file; returns (outdir, manifest entries)"""
@@ -56,7 +61,7 @@ def discharge(dirs_and_manifests, budget_s, cvc5_fraction=0.05, seed=SEED):
     def one(q):
         v, out, wall = solve(q['path'], budget_s)
         q['verdict'] = v; q['wall'] = wall
-        if v == 'sat' and q['kind'] != 'witness':
+        if v == 'sat' and q['kind'] != 'witness' and not q.get('uf'):
             v2, out2, _ = solve(q['path'], budget_s, model=True); q['model'] = out2
         elif v != 'unsat': q['detail'] = out
         return q
